@@ -145,3 +145,27 @@ Proof.
   intro F. unfold record_run_host. rewrite create_spec.
   destruct (dir w) as [t|]; [destruct (can_remove (Some t))|]; rewrite ?F; reflexivity.
 Qed.
+
+(* live mode: with a fresh name nothing but the temporary directory itself is ever touched, on success and on
+   failure; what the recorder put there is uftrace data (default.opts, and an info file - if any - with the magic) *)
+Lemma live_only_own_directory w r : dir w = None ->
+  is_uftrace_directory ((n_default_opts, File (r_opts r)) :: r_extra r) = true ->
+  old (live_run true w r) = old w /\ dir (live_run true w r) = None.
+Proof.
+  destruct w as [d o]. cbn [dir]. intros -> HU. unfold live_run, record_run, create_directory.
+  cbn [dir old can_remove andb negb fst]. split; [reflexivity|].
+  unfold write_default_opts, populate. cbn [lookup set_entry app]. cbn [can_remove]. rewrite HU. reflexivity.
+Qed.
+Lemma live_example : is_uftrace_directory ((n_default_opts, File []) :: [(n_info, File (magic8 ++ [1; 2; 3]))]) = true.
+Proof. vm_compute. reflexivity. Qed.
+(* ... and even if the name was taken by foreign data in the meantime, that data survives *)
+Lemma live_never_removes_foreign w r : foreign (dir w) = true -> live_run true w r = w.
+Proof.
+  destruct w as [d o]. unfold foreign. cbn [dir]. destruct d as [t|]; [|discriminate]. intro H.
+  apply negb_true_iff in H.
+  unfold live_run, record_run, create_directory. cbn [dir old]. rewrite H. cbn [andb negb fst dir old].
+  rewrite H. reflexivity.
+Qed.
+(* the code as found: a foreign directory that took the name is removed by the failed run's cleanup *)
+Lemma live_legacy_removes_foreign : foreign (dir w_foreign) = true /\ live_run false w_foreign r0 <> w_foreign.
+Proof. split; [reflexivity|]. unfold live_run. cbn. discriminate. Qed.
